@@ -161,6 +161,19 @@ func (c *monC05) After(m *Machine, s *Step) *Violation {
 	// embedded CR/LF) counts as the same token, so it may be honoured (and is then
 	// spent) or refused (then nothing may change) - the statement's "only if".
 	exact := s.Secret == base64.URLEncoding.EncodeToString(raw)
+	if r.Fired != "" && usersEqual(s.Pre, s.Post) {
+		// a backend call failed before anything was saved: the token was not
+		// honoured, so the response may not say it was, and it stays outstanding
+		m.flag("fault-before-save")
+		okLoc := "/ok/confirm"
+		if op.K == "recend" {
+			okLoc = "/ok/recover"
+		}
+		if strings.HasPrefix(r.Location, okLoc) || (r.UID() != r.UIDBefore() && r.UID() != "" && m.rotationOwner(s) != r.UID()) {
+			return violation("C05", "honoured-without-being-spent:"+op.K, "%s of %q's outstanding token reported success (location %q, session %q -> %q) although backend call %s failed and nothing was saved: the token is still usable", op.K, owner, r.Location, r.UIDBefore(), r.UID(), r.Fired)
+		}
+		return nil
+	}
 	if !exact && usersEqual(s.Pre, s.Post) && (r.UID() == r.UIDBefore() || m.rotationOwner(s) == r.UID()) {
 		m.flag("alternative-spelling-refused")
 		return nil
@@ -234,6 +247,9 @@ var kindsC05 = []wk{
 var profC05 = profile{
 	must: []string{"confirm", "recover", "register"}, may: []string{"auth", "remember", "logout"},
 	kinds: kindsC05, minOps: 14, maxOps: 34, accts: [2]int{2, 3}, browsers: [2]int{1, 2}, middlewares: []string{"", "remember"},
+	// faults only in the token-consuming requests: a fault in an issuing request
+	// would leave the model not knowing which token is outstanding
+	faultPct: 12, faultOps: []string{"confirm", "recend"},
 	tweak: func(t *rapid.T, c *harness.Config) {
 		c.Setups = nil
 		c.RecoverDurS = pick(t, "recdur5", 30, 600, 86400)
@@ -253,6 +269,12 @@ func TestC05(t *testing.T) {
 		cfg := genConfig(rt, p)
 		e := genEnv{cfg: cfg, nAcct: len(cfg.Accounts), nBrows: cfg.Browsers}
 		ops := genOps(rt, p, e)
+		for i := range ops {
+			if contains(p.faultOps, ops[i].K) && chance(rt, "fault5", p.faultPct) {
+				ops[i].FA = pick(rt, "faultat5", 1, 2, 2, 3, 3, 4, 5, 6)
+				ops[i].FK = "generic"
+			}
+		}
 		d := cfg.RecoverDurS
 		gaps := []int{1, 5, d / 2, d - 3, d + 3, 2 * d}
 		for i := range ops {
